@@ -6,6 +6,8 @@ engine / format validators (`env`), with no bound on size or depth and — after
 IsEmpty shortcut (known_findings.json, fixed) — with no exclusion.
 -/
 import KinModel.Schema.Spec
+import KinModel.Schema.History
+import KinModel.Gen.PatternCache
 namespace KinModel.Schema
 
 theorem isEmpty_list_iff {α} (l : List α) : l.isEmpty = true ↔ l = [] := by cases l <;> simp
@@ -802,6 +804,40 @@ theorem multipleOf_meaning (kw : Kw) (q m : Rat) (h : kw.multipleOf = some m) :
   · rintro ⟨h0, k, rfl⟩ m' hm'
     rw [h] at hm'; cases hm'
     exact ⟨h0, (isInt_iff_int _).mpr ⟨k, Rat.mul_div_cancel h0⟩⟩
+
+/-! ### history independence: an earlier call cannot change a later verdict -/
+
+/-- can this use of `compiledPatterns` put a matcher into the map? -/
+def cacheUseStores (u : Gen.CacheUse) : Bool :=
+  !(u.method == "Load" || (u.method == "CompareAndSwap" && u.shape == "old=nil"))
+
+/-- obligation over the regenerated table: the source has no statement that stores into the pattern cache (every
+use is a `Load`, or the `CompareAndSwap(_, nil, _)` that cannot succeed), and no use the rule could not read -/
+theorem pattern_cache_never_written : Gen.patternCacheUses.all (fun u => !cacheUseStores u) = true := by decide
+
+theorem pattern_cache_is_consulted : Gen.patternCacheUses.any (fun u => u.fn == "visitJSONString" && u.method == "Load") = true := by decide
+
+theorem withCache_empty (env : Env) : env.withCache Cache.empty = env := by
+  cases env; simp [Env.withCache, Cache.empty]
+
+/-- **History independence.** Starting from the empty cache of a fresh process, the verdict of every call in any sequence
+of validations — whatever schemas, values, regex compilers and options the earlier calls used — is the verdict of that
+call alone, i.e. a function of the call's own environment (and hence `↔ Sat` for its own regex engine). -/
+theorem history_independent (calls : List Call) :
+    runCalls Cache.empty calls = calls.map (fun k => visit k.env k.s k.v) := by
+  induction calls with
+  | nil => simp [runCalls]
+  | cons k ks ih => simp only [runCalls, cacheAfter, List.map_cons, withCache_empty, ih]
+
+theorem history_independent_sat (pre : List Call) (k : Call) (post : List Call) :
+    (runCalls Cache.empty (pre ++ k :: post))[pre.length]? = some (decide (satB k.env k.s k.v = true)) := by
+  rw [history_independent]
+  simp [visit_eq_satB]
+
+/-- non-vacuity of the cache model: a cache that DID hold a matcher would override the call's own engine -/
+example : (({ regex := fun _ _ => some true, strFormat := fun _ _ => none } : Env).withCache
+    (fun p => if p = "^a" then some (fun _ => false) else none)).regex "^a" "abc" = some false := by
+  simp [Env.withCache]
 
 /-! ### non-vacuity: concrete schemas and values on both sides of the equivalence -/
 
